@@ -22,13 +22,19 @@
   Hypotheses of the ties that stay visible: array lengths `len(mu) = len(T)`, `len(Pl) = len(T) + 1`; `hmo` (which
   molecular-weight profile the code takes).
 
-  Not restated (no tie / no source counterpart):
-  * `layer_geomean` for arbitrary decreasing levels: `layerPressures` is tied only on the log-spaced grid, where it is
-    restated (`src_layer_geomean`);
+  Restated since the gaps were closed:
+  * `layer_geomean` for ARBITRARY decreasing levels: `src_layer_geomean_levels` — the regenerated
+    `SimplePressureProfile.compute_pressure_profile` with the external `np.logspace` left arbitrary (tie
+    `src_layers_of_levels`: the stored layers are `layerPressures` of the stored levels whatever these are); on the
+    log-spaced grid: `src_layer_geomean`.  `ArrayPressureProfile` goes the other way (levels derived from the given layer
+    pressures by `np.gradient`): there the geometric-mean relation holds on LOG-REGULAR grids only
+    (`src_array_layer_geomean`, about the regenerated `array_pressure_levels`), not for arbitrary layer pressures;
+  * `profile_dict` (the dictionary `generate_profiles()` builds, one value per layer in every entry): `src_profile_dict`.
+
+  Not restated (no source counterpart):
   * `lengths`: source-side arrays are functions without a length; the ties are entry by entry on the valid index range
     (what the length statement becomes on the source side — each stored view is the corresponding returned array on that
-    range, `altitude_profile = z[:-1]` — is `src_views_aligned`);
-  * no C11 theorem is about `arrayLevels` (the tie `src_array_pressure_levels` has nothing to carry over).
+    range, `altitude_profile = z[:-1]` — is `src_views_aligned`; for the stored dictionary: `src_profile_dict`).
 -/
 import Props.C11
 import Props.C11Src
@@ -224,5 +230,172 @@ theorem src_density_formula (kb : ℝ) (P T : List ℝ) (l : ℕ) (hP : l < P.le
   rw [List.getElem?_eq_getElem hP, List.getElem?_eq_getElem hT] at h
   rw [C11Src.src_density kb P T l hP hT, List.getD_eq_getElem?_getD, h]
   rfl
+
+/-! ### the relation between layers and levels, for whatever levels the grid has -/
+
+/-- **layer_geomean beyond the log grid**, about the regenerated `SimplePressureProfile.compute_pressure_profile`: whatever
+    values `np.logspace` returns (the external is ARBITRARY here — the relation between the two stored arrays does not
+    depend on the levels being log-spaced), if the `m` stored levels are positive and strictly decreasing, every stored
+    layer pressure is the geometric mean of its two levels and lies strictly between them -/
+theorem src_layer_geomean_levels (logspace : ℝ → ℝ → ℕ → ℕ → ℝ) (m : ℕ) (pmin pmax : ℝ)
+    (hpos : ∀ i < m, 0 < (Gen.SrcC11.compute_pressure_profile logspace m pmax pmin).1 i)
+    (hdec : ∀ i j, i < j → j < m →
+      (Gen.SrcC11.compute_pressure_profile logspace m pmax pmin).1 j
+        < (Gen.SrcC11.compute_pressure_profile logspace m pmax pmin).1 i)
+    {l : ℕ} (hl : l + 1 < m) :
+    let lev := (Gen.SrcC11.compute_pressure_profile logspace m pmax pmin).1
+    let lay := (Gen.SrcC11.compute_pressure_profile logspace m pmax pmin).2
+    lay l * lay l = lev l * lev (l + 1) ∧ lev (l + 1) < lay l ∧ lay l < lev l := by
+  intro lev lay
+  have hlv : ∀ p ∈ cut m lev, 0 < p := by
+    intro p hp
+    obtain ⟨i, hi, rfl⟩ := List.mem_map.1 hp
+    exact hpos i (List.mem_range.1 hi)
+  have hd : (cut m lev).Pairwise (· > ·) := by
+    rw [List.pairwise_iff_getElem]
+    intro i j hi hj hij
+    simp only [cut, List.getElem_map, List.getElem_range]
+    exact hdec i j hij (by simpa [cut] using hj)
+  obtain ⟨p, lo, up, h1, h2, h3, h4, h5, h6⟩ := layer_geomean hlv hd (l := l) (by simpa [cut] using hl)
+  have e := C11Src.src_layers_of_levels logspace m pmin pmax
+  have hl1 : l < m - 1 := by omega
+  have hp : p = lay l := by
+    rw [show (cut m lev) = (List.range m).map lev from rfl, ← e] at h1
+    simpa [hl1] using h1.symm
+  have hlo : lo = lev l := by
+    have : l < m := by omega
+    simpa [cut, this] using h2.symm
+  have hup : up = lev (l + 1) := by simpa [cut, hl] using h3.symm
+  subst hp hlo hup
+  exact ⟨h4, h5, h6⟩
+
+/-! ### the dictionary of stored profiles -/
+
+/-- `generate_profiles()` as the regenerated code builds it from the regenerated arrays: the views stored by the
+    regenerated `_compute_altitude_gravity_scaleheight_profile`, the regenerated `densityProfile`, the layer pressures `P`,
+    temperatures `T`, molecular weights `mu` and the chemistry's tables (`cond = some …` = the chemistry has condensates);
+    arrays cut to the `len(T)` layers, dictionary values read as the model's `ProfVal` -/
+noncomputable def srcProfiles (mo : Option (Nat → ℝ)) (cm : Nat → ℝ) (kb G M R : ℝ) (T pl P mu : List ℝ)
+    (act inact cond : Option (List (List ℝ))) : List (String × ProfVal ℝ) :=
+  (Gen.SrcC11.generate_profiles act (cut T.length (srcViews mo cm kb G M R T pl).1) (cond.getD [])
+      (cut T.length (Gen.SrcC11.densityProfile kb (fun i => P.getD i 0) (fun i => T.getD i 0)))
+      (cut T.length (srcViews mo cm kb G M R T pl).2.2.1) cond.isSome inact mu P
+      (cut T.length (srcViews mo cm kb G M R T pl).2.1) T).map (fun e => (e.1, C11Src.toProf e.2))
+
+theorem srcProfiles_eq (mo : Option (Nat → ℝ)) (cm : Nat → ℝ) (kb G M R : ℝ) (T pl P mu : List ℝ)
+    (act inact cond : Option (List (List ℝ))) (hmu : mu.length = T.length) (hpl : pl.length = T.length + 1)
+    (hP : P.length = T.length) (hmo : mo.getD cm = fun i => mu.getD i 0) :
+    srcProfiles mo cm kb G M R T pl P mu act inact cond
+      = profileDict (views (scaleProps kb G M R T pl mu)) T P (density kb P T) mu act inact cond := by
+  obtain ⟨e1, e2, e3, _, _⟩ := srcViews_eq mo cm kb G M R T pl mu hmu hpl hmo
+  have ed : cut T.length (Gen.SrcC11.densityProfile kb (fun i => P.getD i 0) (fun i => T.getD i 0)) = density kb P T :=
+    cut_eq _ _ _ (by simp [density, List.length_zipWith, hP]) fun i hi =>
+      C11Src.src_density kb P T i (by omega) hi
+  unfold srcProfiles
+  rw [e1, e2, e3, ed]
+  exact C11Src.src_generate_profiles (views (scaleProps kb G M R T pl mu)) T P (density kb P T) mu act inact cond
+
+/-- **profile_dict / one value per layer in everything that is stored**, about the regenerated `generate_profiles`,
+    `generate_profile_dict`, `_compute_altitude_gravity_scaleheight_profile`, `calculate_scale_properties` and
+    `densityProfile`: the dictionary has exactly the documented keys in insertion order, every entry has one value per
+    layer, and the structure entries are the arrays `calculate_scale_properties` returned (`altitude_profile = z[:-1]`) -/
+theorem src_profile_dict (mo : Option (Nat → ℝ)) (cm : Nat → ℝ) (kb G M R : ℝ) (T pl P mu : List ℝ)
+    (act inact cond : Option (List (List ℝ))) (hmu : mu.length = T.length) (hpl : pl.length = T.length + 1)
+    (hP : P.length = T.length) (hmo : mo.getD cm = fun i => mu.getD i 0)
+    (hact : ∀ rows, act = some rows → ∀ r ∈ rows, r.length = T.length)
+    (hinact : ∀ rows, inact = some rows → ∀ r ∈ rows, r.length = T.length)
+    (hcond : ∀ rows, cond = some rows → ∀ r ∈ rows, r.length = T.length) :
+    let d := srcProfiles mo cm kb G M R T pl P mu act inact cond
+    d.map (·.1) = ["temp_profile", "active_mix_profile", "inactive_mix_profile", "density_profile",
+        "scaleheight_profile", "altitude_profile", "gravity_profile", "pressure_profile"]
+        ++ (if cond.isSome then ["condensate_profile"] else []) ++ ["mu_profile"] ∧
+    (∀ e ∈ d, e.2.PerLayer T.length) ∧
+    d.lookup "altitude_profile" = some (.arr (srcZ kb G M R T pl mu).dropLast) ∧
+    d.lookup "scaleheight_profile" = some (.arr (srcH kb G M R T pl mu)) ∧
+    d.lookup "gravity_profile" = some (.arr (srcG kb G M R T pl mu)) ∧
+    d.lookup "pressure_profile" = some (.arr P) ∧ d.lookup "temp_profile" = some (.arr T) ∧
+    d.lookup "mu_profile" = some (.arr mu) := by
+  intro d
+  have hd : d = profileDict (views (scaleProps kb G M R T pl mu)) T P (density kb P T) mu act inact cond :=
+    srcProfiles_eq mo cm kb G M R T pl P mu act inact cond hmu hpl hP hmo
+  obtain ⟨ez, eH, eg, _⟩ := srcScale_eq kb G M R T pl mu hmu hpl
+  obtain ⟨h1, h2, h3, h4, h5, _, h7, h8, h9⟩ :=
+    profile_dict kb G M R (T := T) (pl := pl) (mu := mu) (P := P) (n := T.length) rfl hmu hpl hP act inact cond
+      hact hinact hcond
+  rw [hd, ez, eH, eg]
+  exact ⟨h1, h2, h3, h4, h5, h7, h8, h9⟩
+
+/-! ### `ArrayPressureProfile`: levels derived from given layer pressures -/
+
+/-- `np.gradient` (unit spacing) of an arithmetic progression is its step, at the ends (one-sided differences) and inside -/
+theorem gradientAt_regular (a d : ℝ) (n : ℕ) (h2 : 2 ≤ n) (i : ℕ) (hi : i < n) :
+    gradientAt ((List.range n).map (fun (k : ℕ) => a + (k : ℝ) * d)) i = d := by
+  unfold gradientAt
+  have hg : ∀ k, k < n → ((List.range n).map (fun (k : ℕ) => a + (k : ℝ) * d)).getD k 0 = a + (k : ℝ) * d := by
+    intro k hk
+    simp [List.getD_eq_getElem?_getD, hk]
+  simp only [List.length_map, List.length_range]
+  by_cases h0 : i = 0
+  · subst h0
+    rw [if_pos rfl, hg 1 (by omega), hg 0 (by omega)]; push_cast; ring
+  · rw [if_neg h0]
+    by_cases hn : i = n - 1
+    · rw [if_pos hn, hg (n - 1) (by omega), hg (n - 2) (by omega)]
+      have : ((n - 1 : ℕ) : ℝ) = ((n - 2 : ℕ) : ℝ) + 1 := by
+        have : n - 1 = (n - 2) + 1 := by omega
+        rw [this]; push_cast; ring
+      rw [this]; ring
+    · rw [if_neg hn, hg (i + 1) (by omega), hg (i - 1) (by omega)]
+      have : ((i + 1 : ℕ) : ℝ) = ((i - 1 : ℕ) : ℝ) + 2 := by
+        have : i + 1 = (i - 1) + 2 := by omega
+        rw [this]; push_cast; ring
+      rw [this]; ring
+
+/-- **the layer / level relation of `ArrayPressureProfile`**, about the regenerated `compute_pressure_profile`
+    (`np.gradient` = `gradientAt`, the tie's instantiation): on a LOG-REGULAR grid of at least two layers (`log10 P_i =
+    a + i·d`, `d < 0`: pressures falling by a constant factor) every GIVEN layer pressure is the geometric mean of the two
+    DERIVED levels around it and lies strictly between them.  (For other layer pressures the derived levels
+    `10**(logp ∓ gradp/2)` do not have this property: the relation is specific to log-regular grids, which is where
+    harness/c11.py judges it.) -/
+theorem src_array_layer_geomean (a d : ℝ) (hd : d < 0) (n : ℕ) (h2 : 2 ≤ n) {l : ℕ} (hl : l < n) :
+    let P : ℕ → ℝ := fun i => (10 : ℝ) ^ (a + (i : ℝ) * d)
+    let lev := Gen.SrcC11.array_pressure_levels n (fun f m i => gradientAt ((List.range m).map f) i) P
+    P l * P l = lev l * lev (l + 1) ∧ lev (l + 1) < P l ∧ P l < lev l := by
+  intro P lev
+  have hlog : ∀ x : ℝ, Real.log ((10 : ℝ) ^ x) / Real.log 10 = x := by
+    intro x
+    have h10 : Real.log 10 ≠ 0 := by
+      have : (0 : ℝ) < Real.log 10 := Real.log_pos (by norm_num)
+      exact ne_of_gt this
+    rw [Real.log_rpow (by norm_num : (0 : ℝ) < 10)]
+    field_simp
+  have hlev : ∀ i, i ≤ n → lev i = (10 : ℝ) ^ (a + (i : ℝ) * d - d / 2) := by
+    intro i hi
+    simp only [lev, Gen.SrcC11.array_pressure_levels, P, log10_real, pow10_real, hlog]
+    by_cases hin : i < n
+    · simp only [hin, decide_true, if_true]
+      rw [gradientAt_regular a d n h2 i hin]
+    · have : i = n := by omega
+      subst this
+      simp only [hin, decide_false, Bool.false_eq_true, if_false]
+      rw [gradientAt_regular a d i h2 (i - 1) (by omega)]
+      congr 1
+      have : ((i - 1 : ℕ) : ℝ) = (i : ℝ) - 1 := by
+        have : i = (i - 1) + 1 := by omega
+        conv_rhs => rw [this]
+        push_cast; ring
+      rw [this]; ring
+  rw [hlev l (by omega), hlev (l + 1) (by omega)]
+  have h10 : (1 : ℝ) < 10 := by norm_num
+  refine ⟨?_, ?_, ?_⟩
+  · simp only [P]
+    rw [← Real.rpow_add (by norm_num), ← Real.rpow_add (by norm_num)]
+    congr 1; push_cast; ring
+  · simp only [P]
+    apply Real.rpow_lt_rpow_of_exponent_lt h10
+    push_cast; linarith
+  · simp only [P]
+    apply Real.rpow_lt_rpow_of_exponent_lt h10
+    linarith
 
 end Taurex.C11SrcProps
